@@ -66,6 +66,32 @@ def extra(report, env):
     report.bounded.append({'function': 'column_label_to_index / column_index_to_label', 'contract': 'bijection (order-preserving, both ways, case-insensitive)',
                            'cases': n, 'applicable': n, 'bound': 'all labels of 1..%d letters in order' % maxlen, 'failures': 1 if bad else 0,
                            'role': 'stand-in', 'exhaustive': True})
+    # beyond the exhaustive range: seeded labels of 4..12 letters against the textbook bijective base-26 value, both directions
+    import random
+    rng = random.Random(env['seed'])
+
+    def ref_value(label):
+        v = 0
+        for ch in label.upper():
+            v = v * 26 + (ord(ch) - 64)
+        return v - 1
+    m = 0
+    if not bad:
+        for _ in range(3000 if env['tier'] == 'quick' else 30000):
+            ln = rng.randint(4, 12)
+            s = ''.join(rng.choice(letters) for _ in range(ln))
+            s = rng.choice([s, 'A' * ln, 'Z' * ln, 'A' + 'Z' * (ln - 1), 'Z' + 'A' * (ln - 1), s[0] + 'A' * (ln - 1)])
+            idx = l2i(s)
+            m += 1
+            if idx != ref_value(s) or i2l(idx) != s or l2i(s.lower()) != idx or l2i(s.capitalize()) != idx:
+                bad = (s, idx, ref_value(s), i2l(ref_value(s)))
+                break
+    report.bounded.append({'function': 'column_label_to_index / column_index_to_label', 'contract': 'bijection beyond the exhaustive range',
+                           'cases': m, 'applicable': m, 'bound': 'seeded labels of 4..12 letters (and the all-A / all-Z / mixed edge labels of each length) '
+                           'against the positional definition, both directions, three spellings', 'failures': 1 if bad and m else 0, 'role': 'stand-in',
+                           'exhaustive': False})
+    if not bad:
+        decompositions(report, env, rng)
     if bad:
         from pyvc.runner import write_replay
         path = write_replay('C19', 'bijection', {'kind': 'bijection', 'property': 'C19', 'obligation': 'bijection', 'label': bad[0],
@@ -73,8 +99,64 @@ def extra(report, env):
         report.violations.append({'what': 'column bijection fails at %r' % (bad,), 'replay': path, 'no_input': False})
 
 
+def decompose_all(seq):
+    """ decompose / recompose the labels of seq one after the other in this process; first failure or None """
+    from pyvc import native
+    ext = native.real_function('hotxlfp.helper.cell:extract_label')
+    tol = native.real_function('hotxlfp.helper.cell:to_label')
+    import re
+    for pos, lab in enumerate(seq):
+        parts = ext(lab)
+        mm = re.match(r'(\$?)([A-Za-z]+)(\$?)([0-9]+)\Z', lab)
+        if len(parts) != 2:
+            return pos, 'decomposes to %r' % (parts,)
+        row, col = parts
+        want = (int(mm.group(4)) - 1, mm.group(4), mm.group(3) == '$', mm.group(2).upper() if col.label.isupper() else mm.group(2), mm.group(1) == '$')
+        got = (row.index, row.label, row.is_absolute, col.label, col.is_absolute)
+        if got != want:
+            return pos, 'parts (row index, row label, row $, column label, column $) = %r, expected %r' % (got, want)
+        if tol(row, col) != lab.upper():
+            return pos, 'recomposes to %r' % (tol(row, col),)
+    return None
+
+
+def decompositions(report, env, rng):
+    """ every $ pattern of the same letters / row one after the other (both spellings, every order), and seeded sequences: what a label
+        decomposes to must not depend on the labels decomposed before it """
+    import itertools
+    from pyvc.runner import write_replay
+    cases = 0
+    bad = None
+    seqs = []
+    for letters_, row in (('Q', '7'), ('ab', '12'), ('XFD', '1048576'), ('n', '98')):
+        forms = ['%s%s%s%s' % (a, letters_, b, row) for a in ('', '$') for b in ('', '$')]
+        forms += [f.swapcase() for f in forms if f.swapcase() != f]
+        seqs.extend(list(p) for p in itertools.permutations(forms[:4]))
+        seqs.append(forms + forms[::-1])
+    pool = ['%s%s%s%d' % (a, c, b, r) for a in ('', '$') for b in ('', '$') for c in ('A', 'a', 'B', 'AA', 'aZ', 'XFD') for r in (1, 2, 10)]
+    for _ in range(200 if env['tier'] == 'quick' else 3000):
+        seqs.append([rng.choice(pool) for _ in range(rng.randint(2, 8))])
+    for seq in seqs:
+        cases += len(seq)
+        r = decompose_all(seq)
+        if r is not None:
+            bad = (seq, r)
+            break
+    report.bounded.append({'function': 'extract_label / to_label', 'contract': 'decompose and recompose, after any history of other decompositions',
+                           'cases': cases, 'applicable': cases, 'bound': 'all orders of the four $ patterns of 4 labels, both spellings; seeded sequences of 2..8 '
+                           'labels from a pool of 72', 'failures': 1 if bad else 0, 'role': 'stand-in', 'exhaustive': False})
+    if bad:
+        path = write_replay('C19', 'decompositions', {'kind': 'decompositions', 'property': 'C19', 'obligation': 'C19.decompositions', 'sequence': bad[0],
+                                                      'position': bad[1][0], 'detail': bad[1][1]})
+        report.violations.append({'what': 'label %r after %r: %s' % (bad[0][bad[1][0]], bad[0][:bad[1][0]], bad[1][1]), 'replay': path, 'no_input': False})
+
+
 def replay(rp):
     from pyvc import native
+    if rp['kind'] == 'decompositions':
+        r = decompose_all(rp['sequence'])
+        print('decomposing %r in this order: %s' % (rp['sequence'], 'all as stated' if r is None else 'label #%d %r: %s' % (r[0], rp['sequence'][r[0]], r[1])))
+        return 0 if r is None else 1
     if rp['kind'] == 'regex':
         got = native.real_function('hotxlfp.helper.cell:extract_label')(rp['witness'])
         import re
